@@ -76,6 +76,20 @@ PROJECTS["reexport"] = {
     "a.py": ["from c import helper\n", "def helper(z):\n    return z.in_a\n"],
     "c.py": ["def helper(z):\n    return z.in_c\n", "def helper(z):\n    return z.in_c_changed\n"],
 }
+# a starred import of a module that lives in a site-packages directory (not followed below -f 2, but star-expanded
+# at every level: what it exports decides which module a later starred import's names come from), then a local one
+VENDOR_DIR = "vendor/site-packages"
+PROJECTS["vendor"] = {
+    "target.py": ["from vendorlib import *\nfrom mylocal import *\n\ndef run(x):\n    return process(x)\n",
+                  "from vendorlib import *\nfrom mylocal import *\n\ndef run(x):\n    return process(x.inner)\n"],
+    "mylocal.py": ["def process(item):\n    return item.price * item.quantity\n", "def process(item):\n    return item.price_changed\n"],
+    VENDOR_DIR + "/vendorlib.py": ["def helper(a):\n    return a.h\n", "def helper(a):\n    return a.h\n\ndef process(a):\n    return a.vendor\n"],
+}
+# histories run in full for their project besides the random ones
+SCRIPTED = {
+    "vendor": [("run",), ("edit", VENDOR_DIR + "/vendorlib.py", 1), ("run",), ("edit", VENDOR_DIR + "/vendorlib.py", 0), ("run",),
+               ("edit", "mylocal.py", 1), ("run",), ("edit", VENDOR_DIR + "/vendorlib.py", 1), ("run",), ("run",)],
+}
 PROJECTS["unicode"] = {
     "target.py": ["from m\u00f6dul import gr\u00f6\u00dfe\n\ndef fl\u00e4che(x):\n    return gr\u00f6\u00dfe(x.h\u00f6he)\n",
                   "from m\u00f6dul import gr\u00f6\u00dfe\n\ndef fl\u00e4che(x):\n    return gr\u00f6\u00dfe(x.breite)\n"],
@@ -103,6 +117,9 @@ def env_for(version, plugin) -> dict:
     if plugin:
         e["RATTR_VERIF_EXTRA_PLUGIN"] = PLUGIN[plugin]
     return e
+
+
+_global_env_for = env_for
 
 
 # ---- Coq terms -----------------------------------------------------------------------------
@@ -309,6 +326,11 @@ def run_history(job) -> dict:
         p.write_text(variants[0])
     cache = root / "cache.json"
     opts, version, plugin = 0, None, None
+    search_path = {"PYTHONPATH": os.pathsep.join([str(C.REPO), str(root / VENDOR_DIR)])} if (root / VENDOR_DIR).is_dir() else {}
+
+    def env_for(version, plugin):      # the project's own site-packages directory is on the module search path
+        return {**_global_env_for(version, plugin), **search_path}
+
     fresh: dict[tuple, dict] = {}
     written: list[bytes] = []
     log, runs = [], []
@@ -562,9 +584,10 @@ def main(tier: str) -> int:
     projects = sorted(PROJECTS)
     with D.Scratch() as scratch:
         jobs = [(i, projects[i % len(projects)], gen_ops(rng, projects[i % len(projects)], n_ops), str(scratch / f"h{i}")) for i in range(n_hist)]
+        jobs += [(n_hist + j, p, ops, str(scratch / f"s{j}")) for j, (p, ops) in enumerate(sorted(SCRIPTED.items()))]
         mjobs = [(i, p, o, str(scratch / f"m{i}"), stride) for i, (p, o) in enumerate(
             [("chain", []), ("package", []), ("star", ["-x", "top.*"]), ("reexport", []), ("unicode", [])] if tier == "quick"
-            else [(p, o) for p in projects for o in ([], ["-f", "0"], ["-x", "top.*"], ["-f", "2"])])]
+            else [(p, o) for p in projects if p not in SCRIPTED for o in ([], ["-f", "0"], ["-x", "top.*"], ["-f", "2"])])]
         hists = D.pmap(run_history, jobs)
         msuites = D.pmap(mutation_suite, mjobs)
 
